@@ -1203,8 +1203,17 @@ class RepositoryPackCollection:
     def _abort_write_group(self):
         # FIXME: just drop the transient index.
         # forget what names there are
-        if self._new_pack is not None:
-            with contextlib.ExitStack() as stack:
+        # Every clean-up step runs even when an earlier one raises (e.g. the
+        # transport cannot delete the new pack): ExitStack runs the callbacks
+        # last-in first-out and re-raises afterwards.
+        with contextlib.ExitStack() as stack:
+            stack.callback(self._resumed_packs.clear)
+            for resumed_pack in reversed(self._resumed_packs):
+                stack.callback(
+                    self._forget_resumed_pack, resumed_pack, ignore_missing=True
+                )
+                stack.callback(resumed_pack.abort)
+            if self._new_pack is not None:
                 stack.callback(setattr, self, "_new_pack", None)
                 # If we aborted while in the middle of finishing the write
                 # group, _remove_pack_indices could fail because the indexes are
@@ -1214,18 +1223,17 @@ class RepositoryPackCollection:
                     self._remove_pack_indices, self._new_pack, ignore_missing=True
                 )
                 self._new_pack.abort()
-        for resumed_pack in self._resumed_packs:
-            with contextlib.ExitStack() as stack:
-                # See comment in previous finally block.
-                stack.callback(
-                    self._remove_pack_indices, resumed_pack, ignore_missing=True
-                )
-                resumed_pack.abort()
-        del self._resumed_packs[:]
+
+    def _forget_resumed_pack(self, pack, ignore_missing=False):
+        """Undo add_pack_to_memory for a resumed pack (it is not in _names)."""
+        self._packs_by_name.pop(pack.name, None)
+        if pack in self.packs:
+            self.packs.remove(pack)
+        self._remove_pack_indices(pack, ignore_missing=ignore_missing)
 
     def _remove_resumed_pack_indices(self):
         for resumed_pack in self._resumed_packs:
-            self._remove_pack_indices(resumed_pack)
+            self._forget_resumed_pack(resumed_pack)
         del self._resumed_packs[:]
 
     def _check_new_inventories(self):
